@@ -17,6 +17,7 @@
 //!   gffl  data script cap             gff::io::Reader::read_line (read_until + LF/CRLF strip + blank skipping)
 //!   fseq  data cap script             fasta sequence::Reader (read_sequence) fed by BufReader windows
 //!   fidx  data cap script             fasta Indexer::index_record fed by BufReader windows
+//!   (further whole-file kinds: see shared/c12_l2b.rs)
 
 use std::io::{BufReader, Read};
 use std::sync::Arc;
@@ -30,6 +31,8 @@ mod c12_adv;
 mod c12_decode;
 #[path = "../shared/c12_files.rs"]
 mod c12_files;
+#[path = "../shared/c12_l2b.rs"]
+mod c12_l2b;
 
 use c12_adv::{Delivery, fmt_script, parse_script};
 use c12_decode::{T, decode_b, decode_bs, decode_r, is_read_format};
@@ -958,6 +961,8 @@ fn generate(rng: &mut Rng, tier: &str, w: &mut CaseWriter) {
             w.push("fidx", vec![hex(&f), cap.to_string(), fmt_script(&script)]);
         }
     }
+    // ---- L2: whole-file readers composed from the primitives (fidxf, fqr, ...)
+    c12_l2b::generate(rng, thorough, w);
 }
 
 fn run(c: &Case) -> Obs {
@@ -973,7 +978,7 @@ fn run(c: &Case) -> Obs {
         "gffl" => run_gffl(c),
         "fseq" => run_fseq(c),
         "fidx" => run_fidx(c),
-        _ => Obs::ok("-", false),
+        _ => c12_l2b::run(c).unwrap_or_else(|| Obs::ok("-", false)),
     }
 }
 
